@@ -303,10 +303,44 @@ func genV2Sequence(r *rand.Rand, n int, bigEvery int) (*v2World, []raftpb.Messag
 	}
 	var out []raftpb.Message
 	cur := w.groups[r.Intn(len(w.groups))]
-	var encIndex, encTerm uint64 // what the previous append left behind: last index and term
+	var encIndex, encTerm uint64 // what the previous append left behind: last index and term (the true stream state S)
+	var prevG *v2Group           // group of the previous append
+	// Resends and gaps are legal raft traffic (after a reject or an unreachable
+	// report the leader sends again from an earlier index; after a snapshot from
+	// a later one). A seed-chosen fraction of follow-ups goes to the same group
+	// and term with Index in {S-2, S-1, S, S+1}: only Index == S may take the
+	// compact form, so any drift between the encoder's and the decoder's idea of
+	// S shows up right here.
+	nearFrac := []int{0, 10, 25, 50}[r.Intn(4)]
+	nearD := []int{-1, -1, 0, -2, 1} // weights: the slot right below S is the most telling one
+	forceNear := -100                // != -100: the next append must be a near follow-up with this offset
+	bigK, bigCombo := 0, r.Intn(20)
+	bigSizes := []int{bufLimit - 1, bufLimit, bufLimit + 1, 2*bufLimit + 1 + r.Intn(4096)}
+	// near re-targets group g to Index = S+d of the same term; false if impossible
+	near := func(g *v2Group, d int) bool {
+		if g == nil || encTerm == 0 || int64(encIndex)+int64(d) < 0 {
+			return false
+		}
+		g.term, g.lastTerm, g.next = encTerm, encTerm, uint64(int64(encIndex)+int64(d))+1
+		return true
+	}
 	for len(out) < n {
 		x := r.Intn(100)
+		big := bigEvery > 0 && len(out)%bigEvery == bigEvery-1
+		isNear := false
 		switch {
+		case forceNear != -100 && near(prevG, forceNear):
+			cur, isNear = prevG, true
+			forceNear = -100
+		case big && near(prevG, 0):
+			// the message with the big entry continues the stream: compact form
+			cur, isNear = prevG, true
+		case prevG != nil && r.Intn(100) < nearFrac && near(prevG, nearD[r.Intn(len(nearD))]):
+			cur, isNear = prevG, true
+		}
+		forceNear = -100
+		switch {
+		case isNear:
 		case x < 8:
 			out = append(out, rafthttp.VerifLinkHeartbeatMessage())
 			continue
@@ -361,13 +395,22 @@ func genV2Sequence(r *rand.Rand, n int, bigEvery int) (*v2World, []raftpb.Messag
 			}
 			return 200 + r.Intn(1500)
 		}
+		if big && nEnt == 0 {
+			nEnt = 1
+		}
 		m := cur.app(r, nEnt, dl)
-		if bigEvery > 0 && len(out)%bigEvery == bigEvery-1 && len(m.Entries) > 0 {
-			// entries at the internal buffer limit: marshalled entry size 1 MiB-1, 1 MiB, 1 MiB+1
-			tgt := bufLimit - 1 + r.Intn(3)
-			padEntryTo(&m.Entries[r.Intn(len(m.Entries))], tgt)
+		if big {
+			// entries around the internal buffer limit: marshalled entry size
+			// 1 MiB-1, 1 MiB, 1 MiB+1 and 2 MiB+, each followed by an append whose
+			// Index sits at S-2, S-1, S or S+1 (all 20 weighted combinations are
+			// walked through: 7 is coprime to 20)
+			combo := (bigCombo + 7*bigK) % 20
+			bigK++
+			padEntryTo(&m.Entries[r.Intn(len(m.Entries))], bigSizes[combo%4])
+			forceNear = nearD[combo/4]
 		}
 		encIndex, encTerm = m.Index+uint64(len(m.Entries)), m.Term
+		prevG = cur
 		out = append(out, m)
 	}
 	return w, out
